@@ -39,6 +39,9 @@ Qed.
 Lemma be32_w32 a b c d : be32 a b c d = w32 a b c d.
 Proof. unfold be32, w32. lia. Qed.
 
+Lemma bytes_ok_cons' x r : bytes_ok (x :: r) -> x < 256 /\ bytes_ok r.
+Proof. intros H. inversion H; subst. auto. Qed.
+
 (* ---------------------------------------------------------------- *)
 (* the option loop follows the TLV split *)
 
@@ -133,10 +136,12 @@ Qed.
 Lemma lla_ok t body : lla_unmarshal (t :: 1 :: body) = Ok body.
 Proof. reflexivity. Qed.
 
-(* MTU: what the code reads (offset mtu_off) *)
+(* MTU *)
 Lemma mtu_model r0 r1 a b c d t :
-  mtu_unmarshal [t; 1; r0; r1; a; b; c; d] = Ok (be32_at [t; 1; r0; r1; a; b; c; d] mtu_off).
-Proof. reflexivity. Qed.
+  mtu_unmarshal [t; 1; r0; r1; a; b; c; d] = Ok (w32 a b c d).
+Proof. unfold mtu_unmarshal. change (at_ [t; 1; r0; r1; a; b; c; d] 1) with 1.
+  change (negb (Z.of_N 1 * 8 - 2 =? 6)%Z) with false. cbv iota.
+  unfold be32_at, at_, mtu_off. cbn [nth Nat.add]. rewrite be32_w32. reflexivity. Qed.
 
 (* prefix masking: the iterative CIDR mask against the closed form per octet *)
 Lemma and_mask_lead : forall a i pl, bytes_ok a -> i mod 8 = 0 ->
@@ -294,6 +299,54 @@ Proof.
 Qed.
 
 (* ---------------------------------------------------------------- *)
+(* route prefix: only the octets that carry prefix bits matter *)
+Lemma keep_bits_0 x : x < 256 -> keep_bits x 0 = 0.
+Proof. intros H. unfold keep_bits. change (8 <=? 0) with false. cbv iota.
+  change (2 ^ (8 - 0)) with 256. rewrite N.div_small by exact H. reflexivity. Qed.
+
+Lemma lead_bits_ext : forall a b i pl, List.length a = List.length b -> bytes_ok a -> bytes_ok b ->
+  (forall k, i + 8 * N.of_nat k < pl -> nth k a 0 = nth k b 0) ->
+  lead_bits a i pl = lead_bits b i pl.
+Proof.
+  induction a as [|x a IH]; intros [|y b] i pl Hl Ha Hb H; try discriminate; [reflexivity|].
+  apply bytes_ok_cons' in Ha as [Hx Ha]. apply bytes_ok_cons' in Hb as [Hy Hb].
+  cbn [lead_bits]. f_equal.
+  - destruct (N.ltb_spec i pl) as [Hlt|Hge].
+    + specialize (H O). cbn [nth] in H. rewrite H by lia. reflexivity.
+    + replace (pl - i) with 0 by lia. rewrite !keep_bits_0 by assumption. reflexivity.
+  - apply IH; auto. intros k Hk. apply (H (S k)). lia.
+Qed.
+
+Lemma nth_firstn_lt {A} (d : A) : forall m l k, (k < m)%nat -> nth k (firstn m l) d = nth k l d.
+Proof.
+  induction m as [|m IH]; intros l k Hk; [lia|]. destruct l as [|x l]; [reflexivity|].
+  destruct k as [|k]; [reflexivity|]. cbn [firstn nth]. apply IH. lia.
+Qed.
+
+Lemma bytes_ok_zeros n : bytes_ok (repeat 0 n).
+Proof. apply bytes_ok_repeat. lia. Qed.
+
+Lemma route_prefix_eq raw pl : bytes_ok raw -> pl <= 128 -> (N.to_nat ((pl + 7) / 8) <= List.length raw)%nat ->
+  ip_mask128 (firstn 16 (firstn (N.to_nat ((pl + 7) / 8)) raw ++ repeat 0 16)) pl = lead_bits (pad16 raw) 0 pl.
+Proof.
+  intros Hok Hpl Hn. set (n := N.to_nat ((pl + 7) / 8)) in *.
+  assert (Hl1 : List.length (firstn 16 (firstn n raw ++ repeat 0 16)) = 16%nat).
+  { rewrite firstn_length, app_length, repeat_length. lia. }
+  assert (Hok1 : bytes_ok (firstn 16 (firstn n raw ++ repeat 0 16))).
+  { apply bytes_ok_firstn. apply bytes_ok_app. split; [apply bytes_ok_firstn; exact Hok|apply bytes_ok_zeros]. }
+  rewrite ip_mask128_lead by assumption.
+  apply lead_bits_ext.
+  - rewrite Hl1. unfold pad16. rewrite firstn_length, app_length, repeat_length. lia.
+  - exact Hok1.
+  - unfold pad16. apply bytes_ok_firstn. apply bytes_ok_app. split; [exact Hok|apply bytes_ok_zeros].
+  - intros k Hk. assert (Hkn : (k < n)%nat) by (unfold n; lia).
+    assert (Hk16 : (k < 16)%nat) by lia.
+    unfold pad16. rewrite !nth_firstn_lt by exact Hk16.
+    rewrite !app_nth1 by (try rewrite firstn_length; lia).
+    apply nth_firstn_lt. exact Hkn.
+Qed.
+
+(* ---------------------------------------------------------------- *)
 (* RDNSS servers *)
 Lemma rd_servers_chunks : forall n pre rest, (16 * n <= List.length rest)%nat ->
   rd_servers_from (pre ++ rest) (List.length pre) n = chunks16 rest n.
@@ -309,15 +362,15 @@ Qed.
 
 (* ---------------------------------------------------------------- *)
 (* the model step in closed form *)
-Definition apply1 (o : new_options) (l : N) (body : bytes) (d : ndopt) : new_options :=
+Definition apply1 (o : new_options) (d : ndopt) : new_options :=
   match d with
   | OSlla m => set_slla o m
   | OTlla m => set_tlla o m
-  | OMtu _ => set_mtu o (be32_at (0 :: 0 :: body) mtu_off)
+  | OMtu m => set_mtu o m
   | OPrefix pl on au v p pfx => add_prefix o (mkPI pl on au v p pfx)
-  | ORoute pl prf life _ => set_ri o (mkRI pl prf life true (firstn (N.to_nat (pl / 8)) (skipn 6 body)))
+  | ORoute pl prf life pfx => set_ri o (mkRI pl prf life true pfx)
   | ORdnss life srv => set_rdnss o (mkRD life (rd_servers (o_rdnss o) ++ srv))
-  | ODnssl life names => if 32 <=? l then set_dnssl o (o_dnssl o) else set_dnssl o (mkDS life names)
+  | ODnssl life names => set_dnssl o (mkDS life names)
   | OOther _ => o
   end.
 
@@ -329,7 +382,7 @@ Proof. intros H. inversion H; subst. auto. Qed.
 Lemma opt_step_char t l body d o :
   1 <= l -> l < 256 -> List.length body = (N.to_nat l * 8 - 2)%nat -> bytes_ok body ->
   decode_opt t l body = Some d ->
-  opt_step o t (t :: l :: body) = Ok (apply1 o l body d).
+  opt_step o t (t :: l :: body) = Ok (apply1 o d).
 Proof.
   intros Hl1 Hl2 Hlen Hok Hd. unfold decode_opt in Hd.
   destruct (N.eqb_spec t 1) as [->|N1].
@@ -338,7 +391,8 @@ Proof.
   { destruct (N.eqb_spec l 1) as [->|]; [|discriminate]. inversion Hd; subst. reflexivity. }
   destruct (N.eqb_spec t 5) as [->|N5].
   { destruct body as [|r0 [|r1 [|a [|b [|c [|e [|? ?]]]]]]]; try discriminate.
-    inversion Hd; subst. cbn [List.length] in Hlen. assert (l = 1) by lia. subst l. reflexivity. }
+    inversion Hd; subst. cbn [List.length] in Hlen. assert (l = 1) by lia. subst l.
+    rewrite opt_step_5, mtu_model. reflexivity. }
   destruct (N.eqb_spec t 3) as [->|N3].
   { destruct body as [|pl [|fl [|v0 [|v1 [|v2 [|v3 [|p0 [|p1 [|p2 [|p3 [|x0 [|x1 [|x2 [|x3 addr]]]]]]]]]]]]]]; try discriminate.
     destruct ((l =? 4) && (pl <=? 128)) eqn:E; [|discriminate]. apply andb_true_iff in E as [E1 E2].
@@ -365,7 +419,12 @@ Proof.
     rewrite Hlo. cbn [negb]. rewrite prf_bits by assumption.
     match goal with H : negb (_ =? 2) = true |- _ => apply negb_true_iff in H; rewrite H end.
     unfold bind. unfold be32_at, at_. cbn [nth Nat.add]. rewrite be32_w32.
-    unfold ri_prefix_bytes, sub. cbn [skipn]. reflexivity. }
+    unfold ri_prefix_bytes, sub. cbn [skipn].
+    rewrite route_prefix_eq; [reflexivity|exact Hok|lia|].
+    cbn [List.length] in Hlen.
+    repeat match goal with H : (_ <=? _) = true |- _ => apply N.leb_le in H | H : (_ || _) = true |- _ => apply orb_true_iff in H
+           | H : (_ =? _) = true |- _ => apply N.eqb_eq in H end.
+    lia. }
   destruct (N.eqb_spec t 25) as [->|N25].
   { destruct body as [|r0 [|r1 [|t0 [|t1 [|t2 [|t3 addrs]]]]]]; try discriminate.
     destruct ((3 <=? l) && N.odd l) eqn:E; [|discriminate]. apply andb_true_iff in E as [E1 E2].
@@ -392,16 +451,11 @@ Proof.
     change (at_ (31 :: l :: _) 1) with l. cbn [skipn].
     assert (Hbv : blen (r0 :: r1 :: t0 :: t1 :: t2 :: t3 :: names) = l * 8 - 2).
     { unfold blen. cbn [List.length]. lia. }
-    rewrite Hbv. unfold raw_len, u8. cbn [apply1].
-    destruct (32 <=? l) eqn:E32.
-    - assert (Hne : (Z.of_N ((l * 8) mod 256) - 2 =? Z.of_N (l * 8 - 2))%Z = false).
-      { apply Z.eqb_neq. pose proof (N.mod_upper_bound (l * 8) 256). lia. }
-      rewrite Hne. reflexivity.
-    - assert (Heq : (Z.of_N ((l * 8) mod 256) - 2 =? Z.of_N (l * 8 - 2))%Z = true).
-      { apply Z.eqb_eq. rewrite N.mod_small by lia. lia. }
-      rewrite Heq. cbn [negb].
-      rewrite (names_loop _ _ _ [] _ En); [|discriminate|cbn [List.length]; lia].
-      cbn [app List.length Nat.eqb]. unfold bind.
-      unfold be32_at, at_. cbn [nth Nat.add]. rewrite be32_w32. reflexivity. }
+    rewrite Hbv. unfold raw_len. cbn [apply1].
+    assert (Heq : (Z.of_N l * 8 - 2 =? Z.of_N (l * 8 - 2))%Z = true) by (apply Z.eqb_eq; lia).
+    rewrite Heq. cbn [negb].
+    rewrite (names_loop _ _ _ [] _ En); [|discriminate|cbn [List.length]; lia].
+    cbn [app List.length Nat.eqb]. unfold bind.
+    unfold be32_at, at_. cbn [nth Nat.add]. rewrite be32_w32. reflexivity. }
   inversion Hd; subst. apply opt_step_other; assumption.
 Qed.
